@@ -1,8 +1,33 @@
 """Third part of unit active_peers: the application-facing calls of network/mod.rs that C09's explicit-disconnect sentence is about:
-NetworkInner::{disconnect, peer, rpc}.  The weak handle on the active-peer set (ActivePeersRef) is modelled as `live` + the set (X8)."""
+NetworkInner::{disconnect, peer, rpc}, and the calls that go through the connection manager's mailbox: NetworkInner::{connect, shutdown, is_closed} (C08, C03).
+The weak handle on the active-peer set (ActivePeersRef) is modelled as `live` + the set (X8); the sending half of the manager's mailbox
+(tokio mpsc::Sender) as `closed` + a ghost log of the requests delivered: `send().await` waits for room and fails only when the receiving half is gone,
+`try_send()` may fail on a full mailbox although the network is up."""
 import prelude as P
 
 NET = 'crates/anemo/src/network/mod.rs'
+CM = 'crates/anemo/src/network/connection_manager.rs'
+
+
+def await_receiver(e):
+    """X5: `<receiver>.await` on a oneshot receiver -> `<receiver>.resolved().await` (the stand-in receiver is not a Future)"""
+    import re
+    t2, k = re.subn(r'\breceiver\s*\.\s*await\b', 'receiver.resolved().await', e.text)
+    if k:
+        e.text = t2
+        e.log('X5', '`receiver.await` rendered as `receiver.resolved().await` (x%d)' % k)
+
+
+def eta_into(e):
+    import re
+    t3, k3 = re.subn(r'\|_\|', '|_unused|', e.text)
+    if k3:
+        e.text = t3
+        e.log('X9', '`|_|` closure parameter named (x%d)' % k3)
+    t2, k = re.subn(r'\.map_err\(Into::into\)', '.map_err(|e| Error::from(e))', e.text)
+    if k:
+        e.text = t2
+        e.log('X11', '`.map_err(Into::into)` eta-expanded')
 
 STANDINS = r'''
 // ---------- trusted stand-ins for the network handle ----------
@@ -16,6 +41,26 @@ impl ActivePeersRef {
                 r is None ==> *final(self) == *old(self),
     { unimplemented!() }
 }
+// tokio::sync::mpsc::Sender<ConnectionManagerRequest>
+pub struct MailboxSender { pub closed: bool, pub delivered: Ghost<Seq<ConnectionManagerRequest>> }
+pub struct SendError<T> { pub v: T }
+pub enum TrySendError<T> { Full(T), Closed(T) }
+impl MailboxSender {
+    #[verifier::external_body]
+    pub async fn send(&mut self, req: ConnectionManagerRequest) -> (r: core::result::Result<(), SendError<ConnectionManagerRequest>>)
+        ensures final(self).closed == old(self).closed,
+                !old(self).closed ==> r is Ok && final(self).delivered@ == old(self).delivered@.push(req),
+                old(self).closed ==> r is Err && final(self).delivered@ == old(self).delivered@ { unimplemented!() }
+    #[verifier::external_body]
+    pub fn try_send(&mut self, req: ConnectionManagerRequest) -> (r: core::result::Result<(), TrySendError<ConnectionManagerRequest>>)
+        ensures final(self).closed == old(self).closed,
+                r is Ok ==> !old(self).closed && final(self).delivered@ == old(self).delivered@.push(req),
+                r is Err ==> final(self).delivered@ == old(self).delivered@,
+                old(self).closed ==> r is Err { unimplemented!() }
+    #[verifier::external_body]
+    pub fn is_closed(&self) -> (r: bool) ensures r == self.closed { unimplemented!() }
+}
+impl From<oneshot::RecvError> for Error { #[verifier::external_body] fn from(e: oneshot::RecvError) -> (r: Error) { unimplemented!() } }
 pub struct OutboundRequestLayer { pub id: u64 }      // the layer stack Builder::start built (unit timeout proves what it contains)
 impl OutboundRequestLayer { #[verifier::external_body] pub fn clone(&self) -> (r: Self) ensures r == *self { unimplemented!() } }
 pub struct Bytes { pub v: Vec<u8> }
@@ -32,10 +77,10 @@ impl Peer {
 
 
 def build(C):
-    t = STANDINS
+    t = C.item(CM, 'enum ConnectionManagerRequest', derives=False) + STANDINS
     t += C.item(NET, 'struct NetworkInner', rewrites=[
         ('X5', 'Arc<Config>', 'Config', 1), ('X5', 'Arc<Endpoint>', 'Endpoint', 1),
-        ('X5', 'mpsc::Sender<ConnectionManagerRequest>', 'Mailbox', 1)])
+        ('X5', 'mpsc::Sender<ConnectionManagerRequest>', 'MailboxSender', 1)])
     t += 'impl NetworkInner {\n'
     t += C.fn(NET, 'impl NetworkInner :: fn disconnect', 'NetworkInner::disconnect', ['C09', 'C08'], ret='r', sig_rewrites=[('&self', '&mut self')], spec='''
     ensures
@@ -54,6 +99,24 @@ def build(C):
     ensures
         !(old(self).active_peers.live && old(self).active_peers.set.0.connections@.contains_key(peer_id)) ==> r is Err, // @OBL NetworkInner::rpc::fails_when_not_connected [C09,C08] after a disconnect (and generally whenever the peer is not in the connected set) an RPC to it fails instead of being sent
         final(self).active_peers.set.0 == old(self).active_peers.set.0, // @OBL NetworkInner::rpc::leaves_the_connected_set_alone [C04,C05,C09] sending a request, whatever its outcome, neither registers nor removes nor closes a connection: a request that fails on a replaced connection cannot evict the replacement
+''')
+    RW = [dict(rule='X5', pattern='ConnectionManagerRequest::', repl='ConnectionManagerRequest::', optional=True)]
+    t += C.fn(NET, 'impl NetworkInner :: fn connect', 'NetworkInner::connect', ['C08', 'C03'], ret='r', sig_rewrites=[('&self', '&mut self')], transforms=[await_receiver, eta_into], rewrites=RW, spec='''
+    ensures
+        old(self).connection_manager_handle.closed ==> r is Err && final(self).connection_manager_handle.delivered@ == old(self).connection_manager_handle.delivered@, // @OBL NetworkInner::connect::closed_network_errors [C08] on a network that has shut down a dial fails (it is not queued, it does not hang)
+        !old(self).connection_manager_handle.closed ==> final(self).connection_manager_handle.delivered@.len() == old(self).connection_manager_handle.delivered@.len() + 1
+            && final(self).connection_manager_handle.delivered@.last() is ConnectRequest
+            && final(self).connection_manager_handle.delivered@.last()->ConnectRequest_0 == addr && final(self).connection_manager_handle.delivered@.last()->ConnectRequest_1 == peer_id, // @OBL NetworkInner::connect::request_reaches_the_manager_unchanged [C03,C08] on a live network exactly one dial request reaches the connection manager, for exactly the address and exactly the expected identity (or none) the caller named
+''')
+    t += C.fn(NET, 'impl NetworkInner :: fn shutdown', 'NetworkInner::shutdown', ['C08'], ret='r', sig_rewrites=[('&self', '&mut self')], transforms=[await_receiver, eta_into], rewrites=RW, spec='''
+    ensures
+        old(self).connection_manager_handle.closed ==> r is Err && final(self).connection_manager_handle.delivered@ == old(self).connection_manager_handle.delivered@, // @OBL NetworkInner::shutdown::closed_network_errors [C08] shutting down a network that is already gone fails (it neither hangs nor reports success)
+        !old(self).connection_manager_handle.closed ==> final(self).connection_manager_handle.delivered@.len() == old(self).connection_manager_handle.delivered@.len() + 1
+            && final(self).connection_manager_handle.delivered@.last() is Shutdown, // @OBL NetworkInner::shutdown::request_always_reaches_the_manager [C08] on a live network the shutdown request ALWAYS reaches the connection manager, whatever else is queued in its mailbox: the call waits for room instead of giving up
+''')
+    t += C.fn(NET, 'impl NetworkInner :: fn is_closed', 'NetworkInner::is_closed', ['C08'], ret='r', spec='''
+    ensures
+        r == self.connection_manager_handle.closed, // @OBL NetworkInner::is_closed::mailbox_closed [C08] a network reports closed exactly when its connection manager is gone
 ''')
     t += '}\n'
     return t
